@@ -26,6 +26,11 @@ def absorb(v, res, out, rc, what):
                        % (what, res.get("counters", {}).get("drift", nd), res["drift"][0].get("text")))
     for s in res.get("samples") or []:
         v.sample(s)
+    # the drivers' own counters (faults injected, batches written, behaviours skipped ...) add up in the evidence
+    ctr = v.coverage.setdefault("driver_counters", {})
+    for k, n in (res.get("counters") or {}).items():
+        if isinstance(n, int) and k not in ("violations", "drift"):
+            ctr[k] = ctr.get(k, 0) + n
     if rc != 0 and not res.get("violations"):
         raise vlib.Broken("%s: driver exited %s without reporting a violation:\n%s" % (what, rc, out[-3000:]))
     return res
